@@ -77,8 +77,9 @@ class Registry:
         if cur is not None:
             if fi.qualname in cur.inline:
                 return None
-            if con is cur and eng.depth == 0:
-                return None
+            if con is cur and eng.depth == 0 and not cur.attrs.get('recursive'):
+                return None    # (contracts declaring `recursive = True` use their own contract at the recursive call:
+                #                partial correctness, termination is not an obligation of the engine)
         if eng.mode == SPEC and not con.pure:
             return None
         return con
